@@ -1198,6 +1198,17 @@ func main() {
 			fmt.Fprintln(os.Stderr, "replay:", err)
 			os.Exit(2)
 		}
+		var cp struct {
+			Case ChainCase `json:"case"`
+		}
+		if json.Unmarshal(b, &cp) == nil && cp.Case.Family == "chain" {
+			for i := 0; i < 20; i++ {
+				runChainCase(cp.Case, res)
+			}
+			res.Evaluations = 20
+			res.Write(fl.Out)
+			return
+		}
 		var rp struct {
 			Case Case `json:"case"`
 		}
@@ -1311,6 +1322,16 @@ func main() {
 		}
 	}
 	flush()
+	if fl.Replay == "" {
+		nChain := 600
+		if fl.Tier == "thorough" {
+			nChain = 8000
+		}
+		if fl.Search {
+			nChain *= 4
+		}
+		runChainFamily(res, lib.NewRand(fl.Seed^0x5eed), nChain, fl.Drv)
+	}
 	if fl.Replay == "" {
 		it := 20000
 		if fl.Tier == "thorough" || fl.Search {
